@@ -1334,9 +1334,17 @@ class DocTest:
                             new_line = ','.join(tbparts)
 
                             # failed_ctx = '>>> ' + self.failed_part.exec_lines[tb_lineno - 1]
-                            failed_ctx = self.failed_part.orig_lines[tb_lineno - 1]
-                            extra = '    ' + failed_ctx
-                            line = (new_line + extra + '\n')
+                            orig_lines = self.failed_part.orig_lines
+                            if 0 < tb_lineno <= len(orig_lines):
+                                failed_ctx = orig_lines[tb_lineno - 1]
+                                extra = '    ' + failed_ctx
+                                line = (new_line + extra + '\n')
+                            else:
+                                # All parts share one pseudo-filename, so
+                                # this frame may belong to code defined by
+                                # an earlier part. There is no context line
+                                # for it in the failing part.
+                                line = new_line
 
                         # m = '(t{})'.format(i)
                         # line = m + line.replace('\n', '\n' + m)
